@@ -452,6 +452,9 @@ def iter_settings(fobj: Union[bytes, BinaryIO]) -> Iterator["Setting"]:
                 if len(setting.value.rstrip(b"\x00")) >= 0x80:
                     while True:
                         x = fobj.read(1)
+                        if not x:
+                            # end of data without a terminating NUL
+                            break
                         if x == b"\x00":
                             fobj.seek(-1, io.SEEK_CUR)
                             break
